@@ -747,6 +747,9 @@ fn topics_scenarios(t: &mut Trace, rng: &mut Rng, thorough: bool) {
     drive(t, &mut s, "topics add_topic t=3");
     drive(t, &mut s, "topics add_issuer i=0 ts=0,1,2,4,5,6,7,8,9,10,11,12,13,14,16");
     drive(t, &mut s, "topics add_issuer i=1 ts=0,1,2,4,5,6,7,8,9,10,11,12,13,14,16,3");
+    drive(t, &mut s, "topics update i=0 ts=0,1");
+    drive(t, &mut s, "topics update i=0 ts=0,1,2,4,5,6,7,8,9,10,11,12,13,14,16,3");
+    drive(t, &mut s, "topics update i=0 ts=16,14,13,12,11,10,9,8,7,6,5,4,2,1,0");
     for k in 1..51u32 {
         drive(t, &mut s, &format!("topics add_issuer i={} ts={}", k, if k % 2 == 0 { "0" } else { "0,1" }));
     }
@@ -1022,8 +1025,29 @@ fn binder_scenarios(t: &mut Trace, rng: &mut Rng, thorough: bool) {
         for k in 0..49u32 {
             drive(t, &mut s, &format!("binder bind_many ts={}..{}", k * 200, k * 200 + 200));
         }
-        drive(t, &mut s, "binder bind_many ts=9800..9999");
+        drive(t, &mut s, "binder bind_many ts=9800..10001"); // 201: batch size
+        drive(t, &mut s, "binder bind_many ts=9800..10000"); // the 50th batch of 200 fills it exactly
+        drive(t, &mut s, "binder bind_many ts=10000..10001");
+        drive(t, &mut s, "binder bind t=10000");
+        drive(t, &mut s, "binder unbind t=9999");
         binder_at_limit(t, &mut s, true);
+    }
+    // every entry point that can reach MAX_TOKENS: the batch entry point from MAX-3
+    t.seq("binder directed exact fill through bind_tokens (9997 preloaded) big=1");
+    let mut s = BinderSim::new(0);
+    for op in [
+        "binder preload n=9997",
+        "binder bind_many ts=9997..10001", // k+1 = 4: refused, nothing bound
+        "binder bind_many ts=9997..10000", // k = 3: accepted, count = MAX
+        "binder bind_many ts=10000..10001", // a batch of one past the limit
+        "binder bind t=10000",
+        "binder unbind t=5",
+        "binder bind_many ts=10000..10002", // one slot free, batch of two
+        "binder bind_many ts=10000..10001", // batch of one into the last slot
+        "binder bind t=10001",
+        "binder bind_many ts=10001..10002",
+    ] {
+        drive(t, &mut s, op);
     }
     t.seq("binder directed the limit of 10000 tokens (9999 preloaded) big=1");
     let mut s = BinderSim::new(0);
@@ -1490,6 +1514,12 @@ fn irs_scenarios(t: &mut Trace, rng: &mut Rng, thorough: bool) {
         "irs remove a=3".to_string(),
         "irs add a=2 id=2 ty=0 cs=1/0/0".to_string(),
         "irs add a=3 id=2 ty=0 cs=1/0/0,2/1/1".to_string(),
+        "irs add_countries a=3 cs=5/11/1".to_string(),
+        "irs add_countries a=3 cs=5/1/101".to_string(),
+        "irs add_countries a=3 cs=5/10/100".to_string(),
+        "irs modify_country a=3 i=0 c=6/1/101".to_string(),
+        "irs modify_country a=3 i=0 c=6/10/100".to_string(),
+        "irs delete_country a=3 i=2".to_string(),
         "irs modify_country a=3 i=1 c=9/0/0".to_string(),
         "irs modify_country a=3 i=2 c=9/0/0".to_string(),
         "irs modify_country a=3 i=0 c=9/11/0".to_string(),
